@@ -409,6 +409,13 @@ def gen_kinds(tier, rng):
                  ("1", "00000005960464477539062500000000001"), ("1", "000000178813934326171874999999999")]:
         for style in ("inline", "define"):
             yield real(False, b_float(w, f), (style, "f32"), form="float-f32", cls="special")
+    # the witnesses of the known findings, spelled exactly as in known-findings.json
+    yield real(False, b_int("7"), ("suffix", "i8"), form="int-suffix", cls="witness")
+    yield real(True, b_int("15"), ("suffix", "i16"), form="int-suffix", cls="witness")
+    yield real(False, b_based("0d", "300"), ("inline", "u8"), form="based-annotated", cls="witness")
+    yield real(True, b_int("128"), ("inline", "i8"), form="int-inline", cls="witness")
+    yield real(False, b_int("9007199254740993"), ("suffix", "u64"), form="int-suffix", cls="witness")
+    yield real(False, b_int("1234"), ("inline", "u8"), form="int-inline", cls="witness")     # the specification's clamping example
     # advisory corners: cross-family annotations, integer kind on fractional literal
     for k in ["r64", "c64", "string", "bool"]:
         yield real(False, b_int("5"), ("inline", k), form="cross-family", cls=k)
